@@ -30,7 +30,7 @@ def run(ctx):
     n = 300 if not ctx.thorough() else 10000
     graphcheck.run_family(ctx, n, ASPECTS, CHECKS, SIGS, corpus=CORPUS, flavours=("future", "coro", "tornado"))
     # asynchronous holding nodes: balance at the final quiescent point, never negative, never rising after zero
-    A.sweep(ctx, n // 2, A.ALL_KINDS, ["balance"], SIGS_B, opts={"small_alphabet": True})
+    A.sweep(ctx, n // 2, A.ALL_KINDS, ["balance"], SIGS_B, opts={"small_alphabet": True, "p_nomd": 0.2})
     for m in corr_modules():
         m.run(ctx, "C05", 30 if not ctx.thorough() else 1000)
     ctx.coverage["rule"] = ("as C01 with a fresh reference counter on ~80% of the metadata entries; counts are read after every operation "
